@@ -4,7 +4,8 @@ The same *abstract* history is applied to ``LearnerND(f, bounds)`` and to
 ``LearnerND(g, sigma*bounds)`` with ``g(x) = tau * f(x / sigma)``,
 ``sigma = 2**k`` (common to all axes), ``tau = 2**m``.  The original learner's
 points ``p`` are told to the original with ``f(p)``; the twin is told *its own*
-returned points with ``tau * f(p)``.  After every op the oracle demands, bit for
+returned points with ``tau * f(p)``.  Losses: default, uniform, triangle, curvature
+(the last two are neighbour-aware, nth_neighbors = 1).  After every op the oracle demands, bit for
 bit: twin points == sigma * original points, equal loss improvements, equal
 ``loss()``, equal ``npoints`` and number of pending points.  If both twins
 raise the same exception type in the same op the history ends there (that is
@@ -67,7 +68,7 @@ BOXES = {
         [[-3.0, 7.5], [0.125, 4.0], [0.0, 1.0]]],
 }
 FUNCS = ["smooth", "step", "const", "grow", "vec2", "ramp"]
-LOSSES = ["default", "uniform"]
+LOSSES = ["default", "uniform", "triangle", "curvature"]   # the last two see the opposing vertices (nth_neighbors = 1)
 
 
 # ---------------------------------------------------------------------------
@@ -319,7 +320,9 @@ class _Side:
 
     def __init__(self, bounds, loss_name, sigma):
         lnd_mod, _ = _mods()
-        loss = {"default": lnd_mod.default_loss, "uniform": lnd_mod.uniform_loss}[loss_name]
+        loss = {"default": lambda: lnd_mod.default_loss, "uniform": lambda: lnd_mod.uniform_loss,
+                "triangle": lambda: lnd_mod.triangle_loss,
+                "curvature": lambda: lnd_mod.curvature_loss_function()}[loss_name]()
         self.l = l = lnd_mod.LearnerND(lambda x: 0.0, [tuple(b) for b in bounds], loss_per_simplex=loss)
         cls = type(l)
         self.out = []           # outstanding (asked / told pending, not yet told) points, in order
@@ -438,7 +441,10 @@ def _twin_loop(cfg, ops, bounds, sigma, tau, fname, O, T):
 
     def val(p):
         v = fvalue(fname, p, bounds)
-        return v, _scale_value(v, tau)
+        w = _scale_value(v, tau)
+        if isinstance(v, tuple):        # a vector-valued function returns an array (the neighbour-aware losses multiply it)
+            return np.array(v), np.array(w)
+        return v, w
 
     def diverge(step, kind, detail):
         res["div"] = {"step": step, "kind": kind, "detail": detail}
@@ -730,9 +736,9 @@ CORPUS: list[dict] = [
     # F9a: three unsolicited tells; the value range of the original exceeds 1.1 at the 2nd value -> it re-bases
     # `_old_scale`, the twin (values * 2**-12) never does; the 4th value then recomputes all losses in one twin only.
     {"cfg": {"bounds": [[-1.0, 1.0], [-1.0, 1.0]], "loss": "default", "func": "ramp", "k": 0, "m": -12},
-     "ops": [["tellu", [7, 11]], ["tellu", [3, 1]], ["ask", 1], ["tellu", [14, 13]], ["tell", 0]], "expect": SIG_A},
+     "ops": [["tellu", [7, 11]], ["tellu", [3, 1]], ["ask", 1], ["tellu", [14, 13]], ["tell", 0]], "expect": None},   # F9a repaired in /repo: must agree
     {"cfg": {"bounds": [[0.0, 1.0], [0.0, 2.0]], "loss": "default", "func": "grow", "k": 0, "m": -27},
-     "ops": [["ask", 6], ["tell", 0], ["tell", 4], ["tell", 0], ["tell", 0]], "expect": SIG_A},
+     "ops": [["ask", 6], ["tell", 0], ["tell", 4], ["tell", 0], ["tell", 0]], "expect": None},
     # F9b, orientation: 3-D box scaled by 2**-25: every |det| < e**-50, `_extend_hull` finds no visible face
     {"cfg": {"bounds": [[-1.0, 1.0], [-1.0, 1.0], [-1.0, 1.0]], "loss": "uniform", "func": "smooth", "k": -25, "m": 0},
      "ops": [["ask", 5], ["tell", 0], ["tellmany", [0, 0, 1, 0]]], "expect": SIG_B},
@@ -743,10 +749,21 @@ CORPUS: list[dict] = [
      "ops": [["ask", 3], ["tellmany", [0, 0, 0]], ["tello", [2, 17]]], "expect": SIG_B},
     # F9d: pending points freed by a deleted simplex are re-added in the iteration order of a set of float tuples
     {"cfg": {"bounds": [[-3.0, 7.5], [0.125, 4.0]], "loss": "uniform", "func": "step", "k": -22, "m": 0},
-     "ops": [["ask", 4], ["tellmany", [0, 0, 0]], ["ask", 1], ["ask", 2], ["tell", 0], ["ask", 4], ["ask", 5]], "expect": SIG_D},
+     "ops": [["ask", 4], ["tellmany", [0, 0, 0]], ["ask", 1], ["ask", 2], ["tell", 0], ["ask", 4], ["ask", 5]], "expect": None},     # F9d repaired in /repo: must agree
     {"cfg": {"bounds": [[0.0, 1.0], [0.0, 2.0]], "loss": "default", "func": "step", "k": -15, "m": 0},
      "ops": [["tellp", [6, 9]], ["tell", 0], ["tellp", [16, 1]], ["tell", 0], ["tellu", [2, 1]], ["ask", 8], ["tell", 23],
-             ["ask", 2]], "expect": SIG_D},
+             ["ask", 2]], "expect": None},
+    # neighbour-aware losses (nth_neighbors = 1) with an output factor != 1: the opposing vertices' values must be
+    # normalised like the simplex's own (seeded mutant: `value = multiplier * value` instead of the list assignment)
+    {"cfg": {"bounds": [[-1.0, 1.0], [-1.0, 1.0]], "loss": "triangle", "func": "smooth", "k": 0, "m": 5},
+     "ops": [["ask", 4], ["tellmany", [0, 0, 0, 0]], ["ask", 3], ["tell", 2], ["tell", 0], ["tell", 0], ["ask", 4],
+             ["tell", 1], ["tell", 0], ["ask", 3]], "expect": None},
+    {"cfg": {"bounds": [[0.0, 1.0], [0.0, 2.0]], "loss": "curvature", "func": "vec2", "k": 7, "m": -9},
+     "ops": [["ask", 4], ["tellmany", [0, 0, 0, 0]], ["ask", 2], ["tell", 1], ["tell", 0], ["ask", 5], ["tell", 3],
+             ["tell", 0], ["tell", 0], ["ask", 2]], "expect": None},
+    {"cfg": {"bounds": [[-1.0, 1.0], [-1.0, 1.0], [-1.0, 1.0]], "loss": "triangle", "func": "ramp", "k": -3, "m": 1},
+     "ops": [["ask", 8], ["tellmany", [0, 0, 0, 0]], ["tellmany", [0, 0, 0, 0]], ["ask", 3], ["tell", 2], ["tell", 0],
+             ["tell", 0], ["ask", 4]], "expect": None},
 ]
 
 
